@@ -353,19 +353,37 @@ async fn run_ws(entry: Entry, req_limit: u32, resp_limit: u32, msg: &[u8]) -> Re
 
 pub fn check(rep: &Reporter) {
 	rep.set_rule(
-		"(max_request, max_response) over 8 pairs incl. unequal ones × message size ∈ {limit−2 … limit+2, 2·limit, 10·limit, limit·3/2} × 3 padding styles (inner whitespace, ignored string param, ≤127 leading whitespace) × entry point {TowerService over HTTP, TowerService over WebSocket, http::call_with_service_builder, http::call_with_service, ws::connect, Server::start over loopback TCP with a raw HTTP/1.1 peer (Content-Length or chunked), Server::start over loopback TCP with a WebSocket peer} × HTTP body variants {1 frame+CL, 1 frame no CL, 3 frames, many 16-byte frames, 3 frames+CL, lying small CL}; the message is always a valid `add` call, so 'processed' = handler ran once and the sum came back. Distinct by the whole tuple; every case non-trivial.",
+		"(max_request, max_response) over 8 pairs incl. unequal ones (thorough: + every request limit 60..140 against response limits 36 and 100000, + 3 large pairs) × message size ∈ {limit−2 … limit+2, 2·limit, 10·limit, limit·3/2} (thorough: also ±3, +7, 3·limit, +127, +128) × 3 padding styles (inner whitespace, ignored string param, ≤127 leading whitespace) × entry point {TowerService over HTTP, TowerService over WebSocket, http::call_with_service_builder, http::call_with_service, ws::connect, Server::start over loopback TCP with a raw HTTP/1.1 peer (Content-Length or chunked), Server::start over loopback TCP with a WebSocket peer} × HTTP body variants {1 frame+CL, 1 frame no CL, 3 frames, many 16-byte frames, 3 frames+CL, lying small CL}; the message is always a valid `add` call, so 'processed' = handler ran once and the sum came back. Distinct by the whole tuple; every case non-trivial.",
 	);
 	rep.assume("WebSocket messages are sent as one unfragmented frame");
+	let thorough = rep.tier.thorough();
+	let mut grid: Vec<(u32, u32)> = GRID.to_vec();
+	if thorough {
+		// every request limit 60..=140 against two very different response limits, and a few large ones
+		for rq in 60..=140u32 {
+			grid.push((rq, 36));
+			grid.push((rq, 100_000));
+		}
+		grid.extend([(8192, 50), (50_000, 3000), (1 << 20, 64)]);
+	}
+	let grid = grid;
 	let mut cases = Vec::new();
-	for (gi, (rq, _)) in GRID.iter().enumerate() {
+	for (gi, (rq, _)) in grid.iter().enumerate() {
 		let l = *rq as usize;
 		let mut sizes = vec![l - 2, l - 1, l, l + 1, l + 2, 2 * l, l * 3 / 2];
+		if thorough {
+			sizes.extend([l - 3, l + 3, l + 7, 3 * l, l + 127, l + 128]);
+		}
 		if l <= 4096 {
 			sizes.push(10 * l);
 		}
 		for n in sizes {
 			for pad in PADS {
 				for e in ENTRIES {
+					// the loopback-TCP entry points open real sockets (ephemeral ports, TIME_WAIT): base grid only
+					if matches!(e, Entry::ServerTcpHttp | Entry::ServerTcpWs) && gi >= GRID.len() {
+						continue;
+					}
 					match e {
 						Entry::TowerWs | Entry::LowWsConnect | Entry::ServerTcpWs => cases.push((gi, n, pad, e, HttpVariant::OneFrameCl)),
 						Entry::ServerTcpHttp => {
@@ -387,7 +405,7 @@ pub fn check(rep: &Reporter) {
 	let outcomes: Mutex<std::collections::HashMap<(u32, usize, String, String), Vec<(u32, Outcome)>>> = Mutex::new(Default::default());
 	par_for(rep, cases.len(), 4, srv::rt, |i, rt, local: &mut Local| {
 		let (gi, n, pad, entry, variant) = cases[i];
-		let (rq, rs) = GRID[gi];
+		let (rq, rs) = grid[gi];
 		let Some(msg) = message(n, pad) else { return };
 		let is_ws = matches!(entry, Entry::TowerWs | Entry::LowWsConnect | Entry::ServerTcpWs);
 		let res = rt.block_on(async {
@@ -398,6 +416,10 @@ pub fn check(rep: &Reporter) {
 		let sigfeat = format!("{entry:?}{}", if is_ws { String::new() } else { format!(":{variant:?}") });
 		let out = match res {
 			Ok(o) => o,
+			Err(e) if e.contains("os error") => {
+				rep.machinery_error(format!("{sigfeat}: {e}"));
+				return;
+			}
 			Err(e) => {
 				rep.violation(&format!("transport-problem:{sigfeat}"), &format!("{e}"), case);
 				return;
